@@ -134,7 +134,8 @@ def run_harness(prop, tier, hi, h, pool, log, dense_samples=False):
             agg["status"] = st["status"]
 
     # pass 1: master explores down to the frontier depth (in a worker process, so the parent stays z3-free)
-    st = pool.apply(_explore, ((prop, tier, hi, None, deadline, h.frontier, False, True, None, 8 if dense_samples else 2),))
+    many = h.conformance > 8
+    st = pool.apply(_explore, ((prop, tier, hi, None, deadline, h.frontier, False, True, None, h.conformance if many else (8 if dense_samples else 2)),))
     agg["funcs"] = st["funcs"]
     frontier = st["frontier"]
     merge(st)
@@ -142,7 +143,7 @@ def run_harness(prop, tier, hi, h, pool, log, dense_samples=False):
     log("  [%s] pre-pass: %d paths, %d partitions, %.1fs" % (h.name, st["paths"], len(frontier), st["wall_s"]))
     # pass 2: partitions in parallel
     if frontier and agg["status"] != "error":
-        jobs = [(prop, tier, hi, pre, deadline, None, False, False, None, (2 if dense_samples else (1 if i < 6 else 0)))
+        jobs = [(prop, tier, hi, pre, deadline, None, False, False, None, (h.conformance if many else (2 if dense_samples else (1 if i < 6 else 0))))
                 for i, pre in enumerate(frontier)]
         for st in pool.imap_unordered(_explore, jobs):
             merge(st)
